@@ -5,6 +5,8 @@ CONSTANTS U = 8
  Sentinel = 8
  RouteMode = "linear"
  NChunks = 1
+ MinBuildLen = 1
+ MaxStep = 1000
 SPECIFICATION Spec
 INVARIANTS Shape C01 C02 RoutedRight InBounds C07a C07b CountBoundIdx SingleRoot SentinelOK
 CHECK_DEADLOCK FALSE
